@@ -561,28 +561,43 @@ Verdict run_C02_cli(const Scn &s) {
   Rec r;
   r.kind = "argv";
   r.data = key;
-  push_args(r, {"wencry", "-e", "-i", "in0", "-o", "out0", "-k", k64, "--cmode", std::to_string(cm), "--hmode", std::to_string(hm), "-n"});
-  r.a = {simtime, len, pseed, cm, hm, 0, 1, simsched::ST_UNIFORM, 0, s.geti("ss0", 1), 0, 0};
+  // the same request spelt in different legal ways: option groups in any order, `--cmode=c` or `--cmode c`, the defaults
+  // (mode 0, hash 0, <input>.wenc) left out, -e and -n clustered
+  Rng og(Rng::mix((uint64_t)s.geti("ss0", 1), 0xC02C, (uint64_t)simtime));
+  uint64_t fl = og.next();
+  bool eqform = fl & 1, omit_c = (fl & 2) && cm == 0, omit_h = (fl & 4) && hm == 0, defout = fl & 8, cluster = fl & 16;
+  std::vector<std::vector<std::string>> groups;
+  if (cluster) groups.push_back({(fl & 32) ? "-en" : "-ne"}); else { groups.push_back({"-e"}); groups.push_back({"-n"}); }
+  groups.push_back({"-i", "in0"});
+  if (!defout) groups.push_back({"-o", "out0"});
+  groups.push_back({"-k", k64});
+  if (!omit_c) { if (eqform) groups.push_back({"--cmode=" + std::to_string(cm)}); else groups.push_back({"--cmode", std::to_string(cm)}); }
+  if (!omit_h) { if (fl & 64) groups.push_back({"--hmode=" + std::to_string(hm)}); else groups.push_back({"--hmode", std::to_string(hm)}); }
+  for (size_t i = groups.size(); i > 1; i--) std::swap(groups[i - 1], groups[og.below(i)]);
+  std::string cmdline = "wencry";
+  push_args(r, {"wencry"});
+  for (auto &gr : groups) for (auto &a : gr) { push_args(r, {a}); cmdline += " " + a; }
+  r.a = {simtime, len, pseed, cm, hm, 0, defout ? 2 : 1, simsched::ST_UNIFORM, 0, s.geti("ss0", 1), 0, 0};
   int st;
   std::vector<Outcome> o = in_child(dir + "/e", [&]() { Outcome x = exec_op(r, Bytes()); send_outcome(x); }, st);
   rm_rf(dir);
   g_stats.add("history.fresh_forks", 1);
-  v.case_hash = fnv1a(fnv1a_u64(fnv1a_u64(FNV_INIT, (uint64_t)simtime), (uint64_t)(len * 64 + cm * 8 + hm)), key.data(), 16);
+  v.case_hash = fnv1a(fnv1a_u64(fnv1a_u64(fnv1a_u64(FNV_INIT, (uint64_t)simtime), (uint64_t)(len * 64 + cm * 8 + hm)), fl & 127), key.data(), 16);
   if (!(o.size() == 1 && o[0].status == 1 && WIFEXITED(st) && WEXITSTATUS(st) == 0)) { v.skipped = true; v.skip_reason = "cli-encrypt-did-not-terminate-normally"; return v; }
   v.nontrivial = true;
   g_stats.add("probe.cli_files_compared_with_reference", 1);
   auto V = [&](const std::string &c, const std::string &d) { Verdict x; x.violation = true; x.cls = c; x.detail = d; x.case_hash = v.case_hash; x.nontrivial = true; return x; };
-  if (!o[0].ret || o[0].out.empty() || o[0].out.back() != 1) return V("enc-returned-false@cli", "`wencry -e -k " + k64 + "` did not succeed or wrote no file");
+  if (!o[0].ret || o[0].out.empty() || o[0].out.back() != 1) return V("enc-returned-false@cli", "`" + cmdline + "` did not succeed or wrote no file");
   Bytes E(o[0].out.begin(), o[0].out.end() - 1);
   v.trace_hash = fnv1a(FNV_INIT, E.data(), E.size());
   Bytes P = make_plain(len, (uint64_t)pseed, 0, build_chunk_bytes());
-  const std::string what = "file written by `wencry -e -k " + k64 + " --cmode " + std::to_string(cm) + " --hmode " + std::to_string(hm) + "` (" + std::to_string(E.size()) + " bytes)";
+  const std::string what = "file written by `" + cmdline + "` (" + std::to_string(E.size()) + " bytes)";
   if (E.size() < 68) { Verdict x = V("format@cli", what + " is shorter than a header with one IV"); x.trace_hash = v.trace_hash; return x; }
   Bytes R = ref_encrypt_file_iv0(P, key.data(), (int)cm, (int)hm, &E[48], 4, build_chunk_bytes());
   if (E != R) {
     size_t k = 0;
     while (k < E.size() && k < R.size() && E[k] == R[k]) k++;
-    Verdict x = V("format@cli", what + " differs from the documented format for that key, those modes, 4 streams and the first IV it carries (" + std::to_string(R.size()) + " bytes), first at offset " + std::to_string(k));
+    Verdict x = V("format@cli", what + " differs from the documented format for that key, cipher mode " + std::to_string(cm) + ", hash mode " + std::to_string(hm) + ", 4 streams and the first IV it carries (" + std::to_string(R.size()) + " bytes), first at offset " + std::to_string(k));
     x.trace_hash = v.trace_hash;
     return x;
   }
